@@ -83,6 +83,9 @@ class C05(Campaign):
         senders = [c.split("/", 1)[1] for c, rules in sc["beh"].items() if any(r.get("sends") for r in rules)]
         mode = rnd.choice(["all", "one", "mixed", "mixed", "guards", "actions"])
         gen.set_async(rnd, prog, mode, must_async=senders)
+        if not prog["cbs"]:
+            # (1 program in ~30000 has no callback at all: give it one, there is nothing to compare otherwise)
+            prog["cbs"]["machine.on_transition"] = {"group": "on", "sig": [gen.P("event")]}
         if not any(m.get("async") for m in prog["cbs"].values()):
             prog["cbs"][rnd.choice(sorted(prog["cbs"]))]["async"] = True
             for c in senders:
